@@ -29,6 +29,11 @@ MAP = [
  ("IDIV r/m8, r/m16, r/m32 sign-extend their divisor", ["C01"], "idiv bl with bl = 0xff divided by 255 instead of -1 (8/16/32 bit)"),
  ("IDIV reports a divide error when the quotient does not fit", ["C06", "C19"], "idiv quotient overflow truncated silently; the most negative dividend / -1 panicked"),
  ("XORPS rejects a memory operand that is not 16-byte aligned", ["C06"], "xorps xmm, [misaligned] executed instead of failing"),
+ ("Axecutor::new takes the code end address modulo 2^64", ["C19"], "Axecutor::new(code, start, rip) with start + code.len() = 2^64 panicked on the code end address (overflow-checked builds)"),
+ ("add_trace computes the instruction address with wrapping", ["C18", "C19"], "a taken branch whose instruction ends exactly at 2^64 (next_ip = 0) panicked in add_trace on RIP - len"),
+ ("ELF loader sizes a PT_LOAD area up to the page boundary", ["C15", "C16"], "a PT_LOAD with unaligned p_vaddr got round_up(p_memsz) bytes and ran into the next page: a well-formed file with a segment on that page failed to load; p_memsz + 0xfff overflowed"),
+ ("ELF loader bounds the memory image", ["C16"], "p_memsz = 2^40 made from_binary ask the allocator for a terabyte: the process aborted instead of returning an error"),
+ ("ELF loader computes the TLS end address with wrapping", ["C16"], "a PT_TLS header on an area ending at 2^64 panicked on p_vaddr + len (overflow-checked builds)"),
  ("a CS segment override on a memory operand is accepted", ["C05", "C06"], "a 0x2E (CS) prefix on a memory operand made the step fail with 'Unsupported segment register: CS'"),
 ]
 log = subprocess.run(["git", "-C", "/repo", "log", "--format=%H %s", "--reverse"], capture_output=True, text=True).stdout.splitlines()
